@@ -281,8 +281,9 @@ func (r *replication) replicate(c *conn, req *appendReq) error {
 				}
 				close(stopCh)
 				if resp.result == staleTerm {
+					staleResp := *resp // draining decodes further responses into resp
 					drainRespsTimeout(r.hbTimeout / 2)
-					return r.onAppendEntriesResp(resp, result.lastIndex) // notifies ldr and return errStop
+					return r.onAppendEntriesResp(&staleResp, result.lastIndex) // notifies ldr and return errStop
 				}
 				if err = drainResps(); err != nil {
 					return err
